@@ -15,6 +15,7 @@ import (
 	"encoding/json"
 	"fmt"
 	"io"
+	"net"
 	"os"
 	"os/exec"
 	"path/filepath"
@@ -55,11 +56,17 @@ type e2eCfg struct {
 	timeout   int    // server -t; 0 = default 20
 	proto     int    // -1 leave the handshake alone; 0 remove the protocol field (v1); 2, 3, 4, 9 force
 	quiet     bool
+	relays    int  // number of trzsz relays (jump hosts) between the client and the server
+	tunnel    bool // give the client (and the relays) a tunnel connector (TCP on 127.0.0.1)
 	hook      e2eHook
 	// events triggered by the harness while the transfer runs
 	onStart func(r *e2eRun)
 	// maximum wall time before the harness gives up (hang detection)
 	deadline time.Duration
+	// how long to wait for the client to recognise the trigger (default 10 s)
+	startWait time.Duration
+	// C17: a scripted tunnel connector for the client (overrides the one `tunnel` installs); nil = none
+	connector func(port int) net.Conn
 }
 
 type e2eRun struct {
@@ -90,6 +97,7 @@ type e2eResult struct {
 	clientDur    time.Duration
 	serverDur    time.Duration
 	leaked       []string // goroutines of this transfer still alive after a grace period
+	started      bool     // the client recognised the trigger
 }
 
 var e2eBinDir = func() string {
@@ -278,8 +286,33 @@ func runTransfer(cfg e2eCfg, src []string, dest string) e2eResult {
 	cliInR, cliInW := io.Pipe()
 	r.cliIn = cliInW
 	svrOutR, svrOutW := io.Pipe()
-	filter := trzsz.NewTrzszFilter(cliInR, termWriter{r}, serverInWriter{r}, svrOutR, trzsz.TrzszOptions{TerminalColumns: 100})
+	// optional chain of relays between the client and the (hooked) link to the server
+	var upIn io.WriteCloser = serverInWriter{r}
+	var upOut io.Reader = svrOutR
+	connector := func(port int) net.Conn {
+		conn, err := net.DialTimeout("tcp", fmt.Sprintf("127.0.0.1:%d", port), time.Second)
+		if err != nil {
+			return nil
+		}
+		return conn
+	}
+	for i := 0; i < cfg.relays; i++ {
+		aR, aW := io.Pipe()
+		bR, bW := io.Pipe()
+		relay := trzsz.NewTrzszRelay(aR, bW, upIn, upOut, trzsz.TrzszOptions{})
+		if cfg.tunnel {
+			relay.SetTunnelConnector(connector)
+		}
+		upIn, upOut = aW, bR
+	}
+	filter := trzsz.NewTrzszFilter(cliInR, termWriter{r}, upIn, upOut, trzsz.TrzszOptions{TerminalColumns: 100})
+	if cfg.tunnel {
+		filter.SetTunnelConnector(connector)
+	}
 	r.filter = filter
+	if cfg.connector != nil {
+		filter.SetTunnelConnector(cfg.connector)
+	}
 	var upCh <-chan error
 	if cfg.upload {
 		var err error
@@ -324,7 +357,10 @@ func runTransfer(cfg e2eCfg, src []string, dest string) e2eResult {
 	}()
 
 	// wait for the client to enter the transferring state
-	startDeadline := time.Now().Add(10 * time.Second)
+	if cfg.startWait == 0 {
+		cfg.startWait = 10 * time.Second
+	}
+	startDeadline := time.Now().Add(cfg.startWait)
 	for !filter.IsTransferringFiles() && time.Now().Before(startDeadline) {
 		select {
 		case <-exited:
@@ -335,7 +371,18 @@ func runTransfer(cfg e2eCfg, src []string, dest string) e2eResult {
 	}
 	if filter.IsTransferringFiles() {
 		r.started.Store(true)
+	} else if !filter.IsTransferringFiles() {
+		// the client never recognised a trigger (or the transfer is already over): if the
+		// server is still there after a moment it is waiting for a handshake that will not come
+		select {
+		case <-exited:
+		case <-time.After(700 * time.Millisecond):
+			if !filter.IsTransferringFiles() {
+				cmd.Process.Kill()
+			}
+		}
 	}
+	res.started = r.started.Load()
 	if cfg.onStart != nil {
 		go cfg.onStart(r)
 	}
@@ -343,7 +390,9 @@ func runTransfer(cfg e2eCfg, src []string, dest string) e2eResult {
 	// wait for both sides
 	clientDone := make(chan struct{})
 	go func() {
-		if cfg.upload {
+		if cfg.upload && !res.started {
+			res.uploadErr = fmt.Errorf("harness: the client never started a transfer")
+		} else if cfg.upload {
 			select {
 			case err := <-upCh:
 				res.uploadErr = err
